@@ -725,6 +725,10 @@ class C04(Prop):
         for e in ["1+", "(1", "1)", "", " ", "1 1", "TRUE FALSE", "!TRUE", "!(TRUE)", "!!(FALSE)", "((((1))))", "(" * 101 + "1" + ")" * 101,
                   "5/0", "5//0", "5%0", "0^-1", "2^-1", "5/(3-3)", "1/0+\"a\"", "\"a\"+1/0", "\"(\"+\")\"", "\",\"+1", "1,2", "1,2,3", "\"a\",\"b,c\",(1,2)"]:
             out.append({"kind": "tok", "vars": {}, "expr": e})
+        # TRUE / FALSE are literals whatever names are defined, also names that are prefixes or extensions of them
+        for env in ({"F": 5}, {"T": 1, "TRU": 2}, {"FALSEY": 3, "TRUEST": 4}, {"F": 5, "FA": 6, "FAL": 7, "FALS": 8}):
+            for e, v in [("FALSE == FALSE", True), ("TRUE", True), ("TRUE != FALSE", True), ("FALSE", False), ("(TRUE) == TRUE", True), ("!(FALSE)", True)]:
+                out.append({"kind": "tok", "vars": dict(env), "expr": e, "ref": common.val_rec(v)})
         # integer literals are exact at any size (no round trip through a double)
         for e, v in [("9007199254740993 - 9007199254740992", 1), ("10000000000000000000001 % 10", 1), ("9007199254740993 == 9007199254740992", False),
                      ("18446744073709551617 // 3", 18446744073709551617 // 3), ("9007199254740993", 9007199254740993), ("(9007199254740993)+0", 9007199254740993),
